@@ -17,6 +17,12 @@ def h64(*parts):
     return int.from_bytes(h.digest(), "big")
 
 
+def pick(seed, feature, n):
+    """An independent choice in range(n) per (run seed, feature name): scenario options that are
+    derived from the seed instead of drawn by the generator do not correlate with each other."""
+    return h64(seed, feature) % n
+
+
 def run_seed(verif_seed, prop, tier, k):
     return h64(verif_seed, prop, tier, k)
 
